@@ -781,6 +781,10 @@ func neverNil(v ssa.Value) bool {
 	case *ssa.MakeInterface:
 		_ = x
 		return true // an interface holding a typed value is non-nil
+	case *ssa.Call:
+		return isErrorCtor(x) // fmt.Errorf / errors.New
+	case *ssa.UnOp:
+		return isSentinelError(x) // a package-level Err… variable
 	}
 	return false
 }
